@@ -47,9 +47,9 @@ Section Spec.
     | l :: r => before_events r ++ [EContext CBefore (p_off l) (lnum_of (p_lnum l)) (p_bytes l)]
     end.
 
-  Definition g_step (st : gstate) (line : bytes) : gstate :=
+  (* one line, given whether it is a (possibly inverted) success *)
+  Definition g_step_s (st : gstate) (line : bytes) (success : bool) : gstate :=
     if g_stopped st then st else
-    let success := negb (Bool.eqb (is_match (without_terminator (c_lt cfg) line)) (c_invert cfg)) in
     let next_l := S (g_lnum st) in
     let next_o := g_off st + length line in
     let stop := c_stop_on_nonmatch cfg && negb success && (g_matched st) in
@@ -76,6 +76,9 @@ Section Spec.
          g_pend := {| p_lnum := g_lnum st; p_off := g_off st; p_bytes := line |} :: g_pend st;
          g_after := 0; g_sunk := g_sunk st; g_matched := g_matched st; g_stopped := stop;
          g_out := g_out st |}.
+
+  Definition g_step (st : gstate) (line : bytes) : gstate :=
+    g_step_s st line (negb (Bool.eqb (is_match (without_terminator (c_lt cfg) line)) (c_invert cfg))).
 
   Definition g_run (lines : list bytes) : gstate := fold_left g_step lines g_init.
 
